@@ -16,7 +16,7 @@ OUTSIDE = "include paths other than plain relative names; more than 3 included f
 ASSUMPTIONS = ["M8: SourceFile.read_assembly_contents is served from an in-memory map (the real file system only in replays)"]
 
 
-def split_program(body, cuts, nest, prefix=""):
+def split_program(body, cuts, nest, prefix="", spell="INCLUDE"):
     """cuts: sorted statement indices [c1<c2<...] ; segments between consecutive cuts become included files.
     nest: if True, each included file includes the next one at its end (depth grows) instead of the main file doing so."""
     files = {}
@@ -36,7 +36,7 @@ def split_program(body, cuts, nest, prefix=""):
             else:
                 name = prefix + "inc%d.asm" % k
                 files[name] = seg
-                main.append(("", "INCLUDE", name))
+                main.append(("", spell, name))
                 k += 1
             seg_main = not seg_main
             prev = c
@@ -44,19 +44,20 @@ def split_program(body, cuts, nest, prefix=""):
         # main = [0,c1) + INCLUDE inc0 + tail after last cut ; inc_i = segment i + INCLUDE inc_{i+1}
         bounds = list(cuts)
         main = list(body[:bounds[0]]) + [("", "INCLUDE", prefix + "inc0.asm")]
+        nested_spell = spell
         segs = [body[a:b] for a, b in zip(bounds, bounds[1:] + [len(body)])]
         for i, seg in enumerate(segs):
-            files[prefix + "inc%d.asm" % i] = list(seg) + ([("", "INCLUDE", prefix + "inc%d.asm" % (i + 1))] if i + 1 < len(segs) else [])
+            files[prefix + "inc%d.asm" % i] = list(seg) + ([("", nested_spell, prefix + "inc%d.asm" % (i + 1))] if i + 1 < len(segs) else [])
     return main, files
 
 
-def make(pname, cuts, nest, prefix=""):
+def make(pname, cuts, nest, prefix="", spell="INCLUDE"):
     prog = meta.PROGRAMS[pname]
     body_ = [x for x in prog["body"]]
 
     def body(ctx):
         texts, vals = meta.make_lits(ctx, prog)
-        main, files = split_program(body_, cuts, nest, prefix)
+        main, files = split_program(body_, cuts, nest, prefix, spell)
         fsmap = {name: [l + "\n" for l in meta.render(seg, texts)] for name, seg in files.items()}
         spliced = meta.render(body_, texts)
         with MemFS(fsmap):
@@ -70,7 +71,7 @@ def make(pname, cuts, nest, prefix=""):
         if ok:
             return True, info
         return ctx.known(PID, {"part": "split"}, {"cuts": cuts, "nested": nest}), info
-    return Ob("C19:split:%s:%s%s%s" % (pname, "-".join(map(str, cuts)), ":nested" if nest else "", (":" + prefix.strip("/")) if prefix else ""), body, timeout=900,
+    return Ob("C19:split:%s:%s%s%s" % (pname, "-".join(map(str, cuts)), ":nested" if nest else "", ((":" + prefix.strip("/")) if prefix else "") + ((":" + spell) if spell != "INCLUDE" else "")), body, timeout=900,
               tags={"part": "split"}, text="program %s split at %s%s" % (pname, cuts, " (nested includes)" if nest else ""))
 
 
@@ -129,6 +130,11 @@ def obligations(tier, seed):
         add(sorted(rnd.sample(range(1, n), 3)), True)
         obs.append(make(pname, sorted(rnd.sample(range(1, n), 3)), True, prefix="lib/"))      # files in a sub-directory
         obs.append(make(pname, sorted(rnd.sample(range(1, n), 2)), False, prefix="src/inc/"))
+        obs.append(make(pname, sorted(rnd.sample(range(1, n), 3)), True, prefix="../shared/"))   # parent-relative path
+        obs.append(make(pname, sorted(rnd.sample(range(1, n), 2)), False, prefix="."))            # dot files (.inc0.asm)
+        obs.append(make(pname, sorted(rnd.sample(range(1, n), 2)), True, prefix="./"))
+        obs.append(make(pname, sorted(rnd.sample(range(1, n), 3)), True, spell="include"))        # lower-case nested includes
+        obs.append(make(pname, sorted(rnd.sample(range(1, n), 4)), True, spell="Include"))
     obs.append(make_twice())
     obs.append(make_diag("missing", {}, ["A NOP", " INCLUDE nothere.asm", "B NOP"], "INCLUDE of a missing file"))
     obs.append(make_diag("missing-nested", {"a.asm": ["C NOP", " INCLUDE b.asm"]}, ["A NOP", " INCLUDE a.asm"], "nested INCLUDE of a missing file"))
